@@ -1,6 +1,7 @@
 use crate::fw::Ctx;
 
 pub mod c03;
+pub mod c06;
 pub mod c07;
 pub mod c12;
 pub mod c17;
@@ -16,6 +17,7 @@ pub struct Prop {
 
 pub const PROPS: &[Prop] = &[
     Prop { id: "C03", run: c03::run, replay: c03::replay },
+    Prop { id: "C06", run: c06::run, replay: c06::replay },
     Prop { id: "C07", run: c07::run, replay: c07::replay },
     Prop { id: "C12", run: c12::run, replay: c12::replay },
     Prop { id: "C17", run: c17::run, replay: c17::replay },
